@@ -827,12 +827,14 @@ func extractConfig(repo string) {
 	cfgT.ok = gok && dok && len(fields) > 0
 
 	// --- SaveManifest: validate first, then write a temp file and rename it over MANIFEST
-	F.Facts["config.SaveManifest.order"] = p.callOrder("Config.SaveManifest", ".Validate", "os.MkdirAll", "json.MarshalIndent", "json.Marshal", "os.WriteFile", "os.Create", "os.OpenFile", "os.Rename")
+	F.Facts["config.SaveManifest.order"] = p.callOrder("Config.SaveManifest", ".Validate", "os.MkdirAll", "json.MarshalIndent", "json.Marshal", "os.WriteFile", "writeFileSync", "os.Create", "os.OpenFile", "os.Rename")
+	// the temp file is written AND synced before the rename publishes it (repair: manifest renamed into place unsynced)
+	F.Facts["config.writeFileSync.order"] = p.callOrder("writeFileSync", "os.OpenFile", "os.Create", ".Write", ".Sync", ".Close")
 	F.Facts["config.SaveManifest.validate"] = p.ifHeaderOfCall("Config.SaveManifest", recvOf(p, "Config.SaveManifest")+".Validate")
 	F.Facts["config.SaveManifest.manifestPath"] = p.assignedExpr("Config.SaveManifest", "manifestPath")
 	F.Facts["config.SaveManifest.tempPath"] = p.assignedExpr("Config.SaveManifest", "tempPath")
 	F.Facts["config.SaveManifest.marshal"] = p.callArgText("Config.SaveManifest", "json.MarshalIndent")
-	F.Facts["config.SaveManifest.write"] = p.callArgText("Config.SaveManifest", "os.WriteFile")
+	F.Facts["config.SaveManifest.write"] = p.callArgText("Config.SaveManifest", "writeFileSync")
 	F.Facts["config.SaveManifest.rename"] = p.callArgText("Config.SaveManifest", "os.Rename")
 	F.Facts["config.SaveManifest.returns"] = p.returnsOf("Config.SaveManifest")
 
